@@ -532,6 +532,24 @@ def check_property(pid, tier='quick', seed=0):
         seen.add(f.name())
         vio2.append(f)
     violations = vio2
+    # a unit whose contract is deliberately stronger than the property (sufficient, not necessary: `violation_needs_replay`) alarms only
+    # with a failing input that misbehaves on the real code; a failed obligation without one is reported as undecided
+    kept = []
+    for f in violations:
+        if getattr(getattr(f, 'unit', None), 'violation_needs_replay', False) and not hasattr(f, 'write_replay'):
+            cex = None
+            try:
+                from . import thorough as th
+                cex = th.find_counterexample(f, workdir)
+            except Exception:
+                cex = None
+            if cex is None:
+                undecided.append('%s: obligation %s is not discharged, and no input misbehaving on the real code was found; the contract of this unit is sufficient for the property, not necessary, so this is no violation by itself. %s' % (
+                    f.unit.uid, f.name(), (getattr(f, 'replay_note', '') or '')[:400]))
+                continue
+            f._cex = cex
+        kept.append(f)
+    violations = kept
     if undecided and not violations:
         rc = 2
     for key, fd, f in known:
@@ -542,10 +560,11 @@ def check_property(pid, tier='quick', seed=0):
             if hasattr(f, 'write_replay'):
                 path, has_input = f.write_replay(i)
             else:
-                cex = None
+                cex = getattr(f, '_cex', None)
                 try:
                     from . import thorough as th
-                    cex = th.find_counterexample(f, workdir)
+                    if cex is None:
+                        cex = th.find_counterexample(f, workdir)
                 except Exception as e:  # a replay-search fault must not hide the verdict
                     cex = None
                 path = write_replay(pid, i, f, cex)
